@@ -160,6 +160,13 @@ def _solve_one(args):
         return "discharged", "z3", time.time() - t0, info
     if r == "sat":
         return "refuted", "z3", time.time() - t0, info
+    # 2b. quantified polynomial equalities: Skolemise, instantiate, ideal membership
+    tried_q = False
+    if poly and z3.is_quantifier(goal) and _nonlinear(goal.body()):
+        tried_q = True
+        ok, how = _with_alarm(30, _poly_quantified, hyps, goal)
+        if ok:
+            return "discharged", "groebner", time.time() - t0, "instantiated at a Skolem index; " + how
     # 3. nonlinear equalities: Groebner bases (directly related hypotheses first)
     if eq_goal and nl_goal:
         ok, how = _with_alarm(25, poly_discharge, base_hyps, pgoal, True)
@@ -186,7 +193,7 @@ def _solve_one(args):
     if ok:
         return "discharged", "z3+split", time.time() - t0, ok
     # 5. quantified polynomial equalities: Skolemise, instantiate, ideal membership
-    if poly and z3.is_quantifier(goal):
+    if poly and z3.is_quantifier(goal) and not tried_q:
         ok, how = _with_alarm(30, _poly_quantified, hyps, goal)
         if ok:
             return "discharged", "groebner", time.time() - t0, "instantiated at a Skolem index; " + how
